@@ -214,6 +214,10 @@ def g_witness(R, tier):
                        "a for loop without break/return puts its iterable into the `in` clause of a comprehension: `for x in (y := [1, 2]):` gives text "
                        "that does not compile (assignment expression cannot be used in a comprehension iterable expression); loops with a break evaluate it outside",
                        "seen = []\nfor x in (y := [1, 2]):\n    seen.append(x)\n")
+    c06.native_finding(R, "__init__.convert_code_string/W5-ast.unparse-writes-format-specs-that-parse",
+                       "with the default unparser (ast.unparse) the literal part of an f-string format spec is written verbatim and the quote is chosen "
+                       "without looking at it: a quote character in a spec gives text that does not compile (a stdlib defect the default option inherits; the own unparser escapes it)",
+                       "name = 'ab'\nr = f\"{name:'^10}\"\n")
 
 
 def _dflt(R, tier):
